@@ -45,6 +45,7 @@ theorem bfSetup_ok_fields (s s1 : SpecSt) (path : Path) (made : List Path)
   rename_i ds hdm
   split at h; · cases h
   rename_i hff
+  split at h; · cases h
   simp only [Except.ok.injEq, Prod.mk.injEq] at h
   obtain ⟨h1, h2⟩ := h
   subst h2
